@@ -13,8 +13,8 @@ import (
 
 func init() {
 	register("C16",
-		"the step rules themselves (that the year star steps back by one per year pillar, the day star counts from the jiazi day nearest each solstice, …): they are arithmetic on pillar indices and day differences.",
-		r16_1, r16_2, r16_3)
+		"that the pillars, term days and day differences the star formulas are fed with are the right ones for every date (numeric: C03, C04, C05); the formulas themselves are decided as decision tables (R16.5).",
+		r16_1, r16_2, r16_3, r16_5)
 }
 
 func r16_1(c *Ctx, r *Report) {
@@ -73,7 +73,7 @@ func constSet(fn *ssa.Function, ops ...token.Token) []string {
 
 func r16_2(c *Ctx, r *Report) {
 	const rule = "R16.2"
-	r.rule(rule, "Duplicated formulas agree. Lunar.GetTimeNineStar and LunarTime.GetNineStar read the same inputs (R11.1); Lunar.getYearNineStar (school 1) and LunarYear.GetNineStar read corresponding inputs and use the same epoch constants (+2696, /60, %3, *3, 62, %9, 9); Lunar.getMonthNineStar and LunarMonth.GetNineStar use the same constants (27, *3, -3, %9).")
+	r.rule(rule, "Duplicated formulas read the same inputs. Lunar.GetTimeNineStar and LunarTime.GetNineStar read the same inputs (R11.1); Lunar.GetYearNineStarBySect (school 1) and LunarYear.GetNineStar read corresponding inputs. That the duplicated formulas compute the same star is R16.5, where both copies are evaluated against one statement.")
 	pair := func(a, b string, bindB int, ra func(string) string) {
 		fa, fb := c.Fn(r, rule, a), c.Fn(r, rule, b)
 		if fa == nil || fb == nil {
@@ -91,24 +91,6 @@ func r16_2(c *Ctx, r *Report) {
 	}
 	pair("calendar.(*LunarTime).GetNineStar", "calendar.(*Lunar).GetTimeNineStar", 0, renameLunarTime)
 	pair("calendar.(*LunarYear).GetNineStar", "calendar.(*Lunar).GetYearNineStarBySect", 1, renameLunarYear)
-	cmpConsts := func(a, b string, ops ...token.Token) {
-		fa, fb := c.Fn(r, rule, a), c.Fn(r, rule, b)
-		if fa == nil || fb == nil {
-			return
-		}
-		ca, cb := constSet(fa, ops...), constSet(fb, ops...)
-		r.check(len(subsetStrs(ca, cb)) == 0 && len(ca) > 0, rule, a+" and "+b+" use the same constants", c.fnPos(fa), fmt.Sprintf("%v must all occur in %v", ca, cb))
-	}
-	cmpConsts("calendar.(*Lunar).getYearNineStar", "calendar.(*LunarYear).GetNineStar", token.QUO, token.REM, token.MUL)
-	cmpConsts("calendar.(*Lunar).getMonthNineStar", "calendar.(*LunarMonth).GetNineStar", token.REM, token.MUL, token.SUB)
-	// epoch constants present
-	for _, name := range []string{"calendar.(*Lunar).getYearNineStar", "calendar.(*LunarYear).GetNineStar"} {
-		if fn := c.Fn(r, rule, name); fn != nil {
-			u := intConstUses(fn)
-			r.check(countConst(u, token.ADD, 2696) == 1 && countConst(u, token.QUO, 60) == 1 && countConst(u, token.REM, 3) == 1 && countConst(u, token.REM, 9) == 1 && countConst(u, token.ADD, 62) == 1,
-				rule, name+" uses the epoch 2696/60/3 and 62, 9", c.fnPos(fn), fmt.Sprintf("constants %v", u))
-		}
-	}
 }
 
 func r16_3(c *Ctx, r *Report) {
